@@ -195,6 +195,36 @@ theorem monitor_accepts_model_call (d : ToolD) (ci : CallIn) (hreg : d.EnforcesO
   rw [enforced_eq_tool d hreg, hex]
   exact monitor_accepts_ideal d ci
 
+/-! ### the protocol version of the session -/
+
+/-- what the driver prints for a call at version `v` is the wrapper model's outcome (plus the `resultType`
+mark): the observation the monitor is run on is `obsOf (modelCall …)` at every version -/
+theorem modelServe_out (v : String) (d : ToolD) (ci : CallIn) : (modelServe v d ci).out = modelCall d ci := by
+  unfold modelServe serveAt modelCall
+  exact served_is_wrapper_outcome _ _ _ _ _ _
+
+/-- **No false alarm, one call, at every protocol version**: the judgement of what the model says a peer
+at version `v` is answered raises nothing — for every `v`. -/
+theorem monitor_accepts_model_call_at_every_version (v : String) (d : ToolD) (ci : CallIn)
+    (hreg : d.EnforcesOwn) (hex : ExactOn d ci) :
+    judgeCall d ci (obsOf (modelServe v d ci).out) (libIn d ci) (libOut d ci) = none := by
+  rw [modelServe_out]
+  exact monitor_accepts_model_call d ci hreg hex
+
+/-- **The C16 monitor does not read the protocol version**: the verdict on a call record (and the state
+after it) is the same whatever version the monitor has booked for the current session. What C16 demands of
+a result — structured content, text rendering, tool-level errors — it demands at every version. -/
+theorem verdict_version_independent (d : MState) (v : String) (name : Option String) (c : CallEv) (o : Obs)
+    (lib olib : Option Bool) :
+    (mstep { d with ver := v } (.call name c o lib olib)).2 = (mstep d (.call name c o lib olib)).2 := by
+  have hc : ({ d with ver := v } : MState).callee name = d.callee name := rfl
+  simp only [mstep, hc]
+  cases d.callee name with
+  | none => rfl
+  | some td =>
+    simp only []
+    cases mkCall td c <;> rfl
+
 end TypedTool
 
 namespace TypedTool
@@ -289,7 +319,7 @@ theorem ownOut_congr {K : Type} (R R' : RegEnv K S) (d : Decl K S)
 /-- a typed event: a record without the implementation's observation -/
 inductive Ev where
   | reset
-  | server (n : Nat)
+  | server (n : Nat) (v : String)
   | tool (t : ToolEv)
   | call (name : Option String) (c : CallEv)
 
@@ -302,7 +332,7 @@ def modelToolObs (d : MState) (t : ToolEv) : ToolObs :=
 /-- the event with the MODEL's observation filled in -/
 def modelRec (d : MState) : Ev → Rec
   | .reset => .reset
-  | .server n => .server n
+  | .server n v => .server n v
   | .tool t => .tool t (modelToolObs d t)
   | .call name c =>
     match d.callee name with
@@ -404,7 +434,7 @@ theorem inv_next {heap : Nat → Schema} {D : String → Schema} {d : MState} (h
     (hwf : Ev.WF heap D d e) : Inv heap D (d.next e) := by
   cases e with
   | reset => exact inv_init heap D
-  | server n =>
+  | server n v =>
     refine ⟨World.step_ok (gR D) heap d.world (.server _) hinv.1 trivial, ?_⟩
     intro x hx
     simp [MState.next, mstep, modelRec, MState.server] at hx
@@ -477,7 +507,7 @@ theorem noalarm_next {heap : Nat → Schema} {D : String → Schema} {d : MState
     (hwf : Ev.WF heap D d e) : (mstep d (modelRec d e)).2 = none := by
   cases e with
   | reset => rfl
-  | server n => rfl
+  | server n v => rfl
   | call name c =>
     simp only [modelRec]
     cases hc : d.callee name with
@@ -553,7 +583,8 @@ def brEv : ToolEv := { name := "t", ity := wTy, oty := wTy, decl := brDecl, env 
 def brCallEv : CallEv :=
   { args := wArgs 7, out := .json (.obj [("n", .num (.ofInt 7)), ("c", .str "x")]) (some (.obj [("n", .num (.ofInt 7)), ("c", .str "x")])),
     content := none, herr := none }
-def brHistory : List Ev := [.server 1, .tool brEv, .call none brCallEv, .server 1, .tool brEv, .tool brEv, .call (some "t") brCallEv]
+def brHistory : List Ev :=
+  [.server 1 "2026-07-28", .tool brEv, .call none brCallEv, .server 1 "2025-06-18", .tool brEv, .tool brEv, .call (some "t") brCallEv]
 
 theorem skeyed_wSchema : SKeyed wSchema := by
   simp [wSchema, SKeyed, SKeyedProps, SKeyedOpt, keys]
@@ -584,7 +615,7 @@ theorem brHistory_wf : WFrun (fun _ => wSchema) brD {} brHistory := by
 the trace has one record per event, and both calls reach `judgeCall` (the callee is found) -/
 example : runMon {} (traceFrom {} brHistory) = none := monitor_accepts_model _ _ _ brHistory_wf
 example : (traceFrom {} brHistory).length = 7 := rfl
-example : ((([.server 1, .tool brEv] : List Ev).foldl MState.next {}).callee none).isSome = true := by decide
+example : ((([.server 1 "2024-11-05", .tool brEv] : List Ev).foldl MState.next {}).callee none).isSome = true := by decide
 example : (((brHistory.take 6).foldl MState.next {}).callee (some "t")).isSome = true := by decide
 
 end Witness
